@@ -80,7 +80,7 @@ class Poly:
         names = names or {}
         parts = []
         for m, c in sorted(self.t.items(), key=lambda x: (len(x[0]), repr(x[0]))):
-            ms = "*".join(names.get(a, _short(a)) for a in m)
+            ms = "*".join(names[a] if a in names else _short(a, names) for a in m)
             if not m:
                 parts.append(str(c))
             elif c == 1:
@@ -92,7 +92,36 @@ class Poly:
         return " + ".join(parts).replace("+ -", "- ") if parts else "0"
 
 
-def _short(a):
+OPSYM = {"Rem": "%", "Div": "/", "Shl": "<<", "Shr": ">>", "BitAnd": "&", "BitOr": "|", "BitXor": "^", "Eq": "==", "Ne": "!=",
+         "Lt": "<", "Le": "<=", "Gt": ">", "Ge": ">="}
+
+
+def _is_key(k):
+    return isinstance(k, tuple) and all(isinstance(t, tuple) and len(t) == 2 and isinstance(t[0], tuple) and isinstance(t[1], int) for t in k)
+
+
+def render_key(k, names=None):
+    """render a Poly.key() back to text"""
+    return Poly({m: c for m, c in k}).show(names) if _is_key(k) else str(k)
+
+
+def _short(a, names=None):
+    if isinstance(a, str):
+        return a
+    if isinstance(a, tuple) and a:
+        if a[0] in OPSYM and len(a) == 3 and _is_key(a[1]) and _is_key(a[2]):
+            l, r = render_key(a[1], names), render_key(a[2], names)
+            l = "(%s)" % l if len(a[1]) > 1 else l
+            r = "(%s)" % r if len(a[2]) > 1 else r
+            return "(%s %s %s)" % (l, OPSYM[a[0]], r)
+        if a[0] == "index" and len(a) == 3 and _is_key(a[1]) and _is_key(a[2]):
+            return "%s[%s]" % (render_key(a[1], names), render_key(a[2], names))
+        if a[0] == "call" and len(a) == 3:
+            return "%s(%s)" % (str(a[1]).split("::")[-1], ", ".join(render_key(x, names) for x in a[2]))
+        if a[0] == "field" and len(a) == 3 and _is_key(a[1]):
+            return "%s.%s" % (render_key(a[1], names), a[2])
+        if a[0] == "lv":
+            return "i%s" % a[1]
     s = repr(a)
     return s if len(s) < 60 else s[:57] + "..."
 
